@@ -6,7 +6,7 @@
 //!   r<p>        release(p)            r<a>..<b>   release(a), release(a+1), ..., release(b)
 //!   a           allocate()            a*<n>       n times allocate()
 //!   w<p>:<i>=<v>   the client writes the u32 v (little endian) at byte offset 4*i of page p
-//! (a trailing " ;class=<k>" written by `search` is ignored)
+//! (a trailing " ;class=<k>", written by `search` of earlier versions, is ignored)
 use std::collections::{HashMap, HashSet};
 use std::panic::AssertUnwindSafe;
 use tvh::*;
@@ -68,29 +68,16 @@ enum Op { Rel(u32), Alloc, Poke(u32, u32, u32) }
 enum Out { Ok, Some(u32), None, Err, Panic }
 struct Ev { op: Op, out: Out, hd: u32, fc: u32 }
 
-struct Driver { fl: Freelist, st: AnyStorage, np: u32, kind: &'static str, evs: Vec<Ev>, skipped: u64 }
+struct Driver { fl: Freelist, st: AnyStorage, np: u32, kind: &'static str, evs: Vec<Ev> }
 impl Driver {
     fn new(kind: &'static str, np: u32, serial: u64) -> Self {
-        Driver { fl: Freelist::new(), st: make_storage(kind, np, serial), np, kind, evs: vec![], skipped: 0 }
+        Driver { fl: Freelist::new(), st: make_storage(kind, np, serial), np, kind, evs: vec![] }
     }
+    #[allow(dead_code)]
     fn word(&self, p: u32, i: u32) -> Option<u32> {
         let pg = self.st.page(p).ok()?;
         let o = 4 * i as usize;
         Some(u32::from_le_bytes([pg[o], pg[o + 1], pg[o + 2], pg[o + 3]]))
-    }
-    /// allocate() recurses through empty trunks; on a cyclic chain (only reachable when the
-    /// client scribbles over trunk pages) it would never return.  Such a call is not made.
-    fn alloc_terminates(&self) -> bool {
-        if self.fl.free_count() == 0 { return true; }
-        let mut h = self.fl.head_page();
-        let mut hops = 0u32;
-        loop {
-            let (c, n) = match (self.word(h, 5), self.word(h, 4)) { (Some(c), Some(n)) => (c, n), _ => return true };
-            if c != 0 || n == 0 { return true; }
-            h = n;
-            hops += 1;
-            if hops >= self.np { return false; }
-        }
     }
     fn record(&mut self, op: Op, out: Out) -> Out {
         self.evs.push(Ev { op, out, hd: self.fl.head_page(), fc: self.fl.free_count() });
@@ -106,7 +93,6 @@ impl Driver {
         self.record(Op::Rel(p), out)
     }
     fn alloc(&mut self) -> Option<Out> {
-        if !self.alloc_terminates() { self.skipped += 1; return None; }
         let (fl, st) = (&mut self.fl, &mut self.st);
         let out = match catch(AssertUnwindSafe(|| fl.allocate(st))) {
             Caught::Done(Ok(Some(p))) => Out::Some(p),
@@ -203,13 +189,11 @@ fn exec(np: u32, kind: &'static str, ops: &[Op], serial: u64) -> Driver {
 }
 
 // ------------------------------------------------------------------ the property's oracle (Rust twin of
-// Model/Freelist.v `property_ok` / `known_class_tr`; used for `nontrivial`, statistics and `search`)
-struct Verdict { disciplined: bool, safe: bool, safe_until_deref: bool, exact: bool, not_under: bool }
+// Model/Freelist.v `property_ok` and `refines_bag`; used for `nontrivial`, statistics and `search`)
+struct Verdict { disciplined: bool, safe: bool, exact: bool, complete: bool, count_is_bag: bool }
 fn judge(np: u32, evs: &[Ev]) -> Verdict {
     let mut bag: HashSet<u32> = HashSet::new();
-    let (mut z4, mut z5, mut phd, mut pfc) = (0u32, 0u32, 0u32, 0u32);
-    let mut v = Verdict { disciplined: true, safe: true, safe_until_deref: true, exact: true, not_under: true };
-    let mut deref_seen = false;
+    let mut v = Verdict { disciplined: true, safe: true, exact: true, complete: true, count_is_bag: true };
     for e in evs {
         let disc = match e.op {
             Op::Rel(p) => p >= 1 && p < np && !bag.contains(&p),
@@ -217,7 +201,6 @@ fn judge(np: u32, evs: &[Ev]) -> Verdict {
             Op::Poke(p, i, _) => p < np && i < WORDS && !bag.contains(&p),
         };
         if !disc { v.disciplined = false; }
-        if e.op == Op::Alloc && phd == 0 && pfc > 0 && !(z4 == 0 && z5 == 0) { deref_seen = true; }
         let anomaly = match (e.op, e.out) {
             (Op::Alloc, Out::Some(p)) => !bag.contains(&p),
             (Op::Alloc, Out::None) => false,
@@ -225,22 +208,19 @@ fn judge(np: u32, evs: &[Ev]) -> Verdict {
             (_, Out::Ok) => false,
             _ => true,
         };
-        if anomaly { v.safe = false; if !deref_seen { v.safe_until_deref = false; } }
+        if anomaly { v.safe = false; }
+        if e.op == Op::Alloc && e.out == Out::None && !bag.is_empty() { v.complete = false; }
         match (e.op, e.out) {
             (Op::Rel(p), Out::Ok) => { bag.insert(p); }
             (Op::Alloc, Out::Some(p)) => { bag.remove(&p); }
-            (Op::Poke(0, 4, x), Out::Ok) => { z4 = x; }
-            (Op::Poke(0, 5, x), Out::Ok) => { z5 = x; }
             _ => {}
         }
-        phd = e.hd;
-        pfc = e.fc;
+        if e.fc as usize != bag.len() { v.count_is_bag = false; }
     }
     // reported free count vs what the following allocations returned, wherever the rest of the
     // trace only allocates until it sees None
     let mut d: Option<u64> = None;
     for k in (0..=evs.len()).rev() {
-        // d = drain count of evs[k..]; the free count reported at that moment is fc after event k-1
         if k < evs.len() {
             d = match (evs[k].op, evs[k].out) {
                 (Op::Alloc, Out::Some(_)) => d.map(|x| x + 1),
@@ -249,19 +229,14 @@ fn judge(np: u32, evs: &[Ev]) -> Verdict {
             };
         }
         let reported = if k == 0 { 0u64 } else { evs[k - 1].fc as u64 };
-        if let Some(x) = d {
-            if reported != x { v.exact = false; }
-            if reported < x { v.not_under = false; }
-        }
+        if let Some(x) = d { if reported != x { v.exact = false; } }
     }
     v
 }
-fn class_of(v: &Verdict) -> i32 {
-    // 0 with property holding -> -1 (no failure)
-    if !v.disciplined || (v.safe && v.exact) { return -1; }
-    if !v.safe { return if v.safe_until_deref { 2 } else { 0 }; }
-    if v.not_under { 1 } else { 0 }
-}
+/// the property (three clauses) fails on this history
+fn property_fails(v: &Verdict) -> bool { v.disciplined && !(v.safe && v.exact) }
+/// the stronger bag refinement (allocate None iff bag empty, free_count = |bag|) fails
+fn refinement_fails(v: &Verdict) -> bool { v.disciplined && !(v.safe && v.complete && v.count_is_bag) }
 
 // ------------------------------------------------------------------ Coq printing
 fn op_term(o: Op) -> String {
@@ -318,7 +293,7 @@ fn case_term(d: &Driver) -> String {
     s
 }
 
-struct Stats { multi_trunk: u64, class1: u64, class2: u64, undisciplined: u64, holds: u64, other: u64, skipped_calls: u64, mmap_cases: u64, max_chain_ops: usize }
+struct Stats { multi_trunk: u64, undisciplined: u64, holds: u64, fails: u64, refinement_fails: u64, mmap_cases: u64, max_chain_ops: usize, trunk_pages_handed_out: u64 }
 fn heads_seen(evs: &[Ev]) -> (usize, bool) {
     // distinct non-zero head pages; whether create_new_trunk ran (a release moved a non-zero head)
     let mut hs = HashSet::new();
@@ -331,14 +306,22 @@ fn heads_seen(evs: &[Ev]) -> (usize, bool) {
     }
     (hs.len(), chained)
 }
+/// allocations that returned the page that was head trunk at the time (the repaired behaviour)
+fn trunk_pages_out(evs: &[Ev]) -> u64 {
+    let mut prev = 0u32;
+    let mut n = 0;
+    for e in evs { if let (Op::Alloc, Out::Some(p)) = (e.op, e.out) { if p == prev && prev != 0 { n += 1; } } prev = e.hd; }
+    n
+}
 fn emit(w: &mut CaseWriter, st: &mut Stats, d: &Driver, kind: &str) {
     let v = judge(d.np, &d.evs);
     let (nheads, chained) = heads_seen(&d.evs);
     let somes = d.evs.iter().filter(|e| matches!(e.out, Out::Some(_))).count();
     let nontrivial = somes >= 1 && nheads >= 2;
     if chained { st.multi_trunk += 1; st.max_chain_ops = st.max_chain_ops.max(d.evs.len()); }
-    match class_of(&v) { 1 => st.class1 += 1, 2 => st.class2 += 1, -1 => { if v.disciplined { st.holds += 1 } else { st.undisciplined += 1 } }, _ => st.other += 1 }
-    st.skipped_calls += d.skipped;
+    if !v.disciplined { st.undisciplined += 1 } else if property_fails(&v) { st.fails += 1 } else { st.holds += 1 }
+    if refinement_fails(&v) { st.refinement_fails += 1; }
+    st.trunk_pages_handed_out += trunk_pages_out(&d.evs);
     if d.kind == "mmap" { st.mmap_cases += 1; }
     w.push(case_term(d), replay_line(d), nontrivial, kind);
 }
@@ -531,7 +514,7 @@ fn main() {
 fn gen(a: &Args) {
     let mut rng = Rng::new(a.seed);
     let mut w = CaseWriter::new(&a.out, "C34", "Corr.C34", 300);
-    let mut st = Stats { multi_trunk: 0, class1: 0, class2: 0, undisciplined: 0, holds: 0, other: 0, skipped_calls: 0, mmap_cases: 0, max_chain_ops: 0 };
+    let mut st = Stats { multi_trunk: 0, undisciplined: 0, holds: 0, fails: 0, refinement_fails: 0, mmap_cases: 0, max_chain_ops: 0, trunk_pages_handed_out: 0 };
     let mut serial = 1u64 << 32;
     if let Some(lines) = a.replay_lines() {
         for l in lines {
@@ -574,50 +557,39 @@ fn gen(a: &Args) {
         ("multi_trunk_chain_cases".to_string(), st.multi_trunk.to_string()),
         ("longest_multi_trunk_history_calls".to_string(), st.max_chain_ops.to_string()),
         ("cases_property_holds".to_string(), st.holds.to_string()),
-        ("cases_known_class_1_overcount".to_string(), st.class1.to_string()),
-        ("cases_known_class_2_page0".to_string(), st.class2.to_string()),
+        ("cases_property_fails_by_rust_twin".to_string(), st.fails.to_string()),
+        ("cases_bag_refinement_fails_by_rust_twin".to_string(), st.refinement_fails.to_string()),
+        ("allocations_returning_the_head_trunk_page".to_string(), st.trunk_pages_handed_out.to_string()),
         ("cases_undisciplined_client".to_string(), st.undisciplined.to_string()),
-        ("cases_unexplained_by_rust_twin".to_string(), st.other.to_string()),
-        ("allocate_calls_not_made_cyclic_chain".to_string(), st.skipped_calls.to_string()),
         ("cases_over_mmap_storage".to_string(), st.mmap_cases.to_string()),
     ];
     w.finish(&extra);
 }
 
 /// Oracle only (no model): safety, legal calls succeed, reported free count = what the following
-/// allocations return.  Every failing history is printed with the class the oracle puts it in
-/// (" ;class=k"; k = 0: not one of the recorded findings).
+/// allocations return; also the stronger bag refinement (None iff bag empty, free_count = |bag|).
+/// Every failing history is printed.
 fn search(a: &Args) {
     let mut rng = Rng::new(a.seed ^ 0xC34_5EA7);
     let mut fails: Vec<String> = vec![];
-    let mut by_class = [0u64; 3];
     let mut tried = 0u64;
     let t0 = std::time::Instant::now();
     let mut serial = 1u64 << 40;
-    let mut consider = |d: Driver, fails: &mut Vec<String>, by_class: &mut [u64; 3]| {
+    let mut consider = |d: Driver, fails: &mut Vec<String>| {
         let v = judge(d.np, &d.evs);
-        let k = class_of(&v);
-        if k >= 0 {
-            by_class[k as usize] += 1;
-            // keep every unexplained failure (up to 30) and a few of each recorded class
-            if (k == 0 && fails.len() < 60) || (k > 0 && by_class[k as usize] <= 3) {
-                fails.push(format!("{} ;class={}", replay_line(&d), k));
-            }
-        }
+        if (property_fails(&v) || refinement_fails(&v)) && fails.len() < 40 { fails.push(replay_line(&d)); }
     };
-    gen_exhaustive(4, 6, &mut |d| { tried += 1; consider(d, &mut fails, &mut by_class); });
-    for i in 0..8u64 { serial += 1; let d = gen_trunk_span(&mut rng, serial, "mem", 2 + (i % 3) as u32, i); tried += 1; consider(d, &mut fails, &mut by_class); }
+    gen_exhaustive(4, 6, &mut |d| { tried += 1; consider(d, &mut fails); });
+    for i in 0..8u64 { serial += 1; let d = gen_trunk_span(&mut rng, serial, "mem", 2 + (i % 3) as u32, i); tried += 1; consider(d, &mut fails); }
     let budget = a.budget / 4;
     while tried < budget && t0.elapsed().as_secs() < 240 {
         serial += 1;
         let d = match tried % 4 { 0 | 1 => gen_random_small(&mut rng, serial, "mem", true), 2 => gen_page0(&mut rng, serial), _ => gen_random_small(&mut rng, serial, "mem", false) };
         tried += 1;
-        consider(d, &mut fails, &mut by_class);
+        consider(d, &mut fails);
     }
     let mut out = String::new();
     out.push_str(&format!("tried={}\n", tried));
-    // unexplained first
-    fails.sort_by_key(|l| if l.ends_with(";class=0") { 0 } else { 1 });
     for f in &fails { out.push_str("FAIL "); out.push_str(f); out.push('\n'); }
     std::fs::write(&a.out, out).expect("write search output");
 }
